@@ -262,6 +262,11 @@ def rules_old(run):
         run.check(d is not None, r, m.short, "exposes '__old__'", "missing '__old__'", m.node)
         if d is not None and keyx is not None:
             d = strip_cast(d)
+            if isinstance(d, ast.Name):
+                # an explanatory local defined once before the dict
+                o_ = q.local_origin(m.node, d)
+                if len(o_) == 1:
+                    d = strip_cast(o_[0])
             good = isinstance(d, ast.Call) and q.unparse(d.func) == 'self._memory.get' and d.args and \
                 q.unparse(d.args[0]).replace(q.param_names(m.node)[1], op) == keyx
             run.check(good, r, m.short, '__old__ read under the key it was stored under (%s)' % keyx, 'reads %s' % q.unparse(d)[:60], m.node)
